@@ -67,6 +67,17 @@ CHECKS['C07'] = dict(
          'are judged by the declarative P-layer in the trace specification.',
     design_ref='4 (C07)', technique='TLA+/TLC model checking + exhaustive spec-to-code replay + trace validation',
     note=_NOTE)
+CHECKS['C17'] = dict(
+    text='Selector.tla: the random n-subset is a nondeterministic choice in the I-layer; TLC proves that '
+         'every outcome satisfies the statement (ValidSel), that every selection the statement allows '
+         'is an outcome (completeness), that the searchsorted-parity trick equals interval membership '
+         '(repeated bounds included) and that the kept chunks are whole grid intervals at a regular '
+         'stride. Every configuration in scope (~320k quick) is replayed on the real SpikeSelector under '
+         'several NumPy seeds: chunks_kept must be equal and the returned ids must belong to the set '
+         'of allowed selections computed by TLC; random large inputs are judged by the relational '
+         'P-layer in the trace specification.',
+    design_ref='4 (C17)', technique='TLA+/TLC model checking (relational spec) + exhaustive spec-to-code replay + trace validation',
+    note=_NOTE + ' The model-level use through save_spikes_subset_waveforms is exercised under C10/C03.')
 
 NOT_APPLICABLE = {}
 for e in ENGINES:
